@@ -6,40 +6,16 @@
    observed choices is not stricter than the algorithm itself, and "pinned pools by
    ascending priority, 0 last, before unpinned pools" holds for the algorithm. *)
 From Coq Require Import List NArith Bool Lia Permutation Sorted.
-From Verif Require Import Model.Net Model.Alloc Proofs.NetP Proofs.AllocP Proofs.AllocPolicyP Proofs.AllocSortP.
+From Verif Require Import Model.Net Model.Alloc Model.AllocRef Proofs.NetP Proofs.AllocP Proofs.AllocPolicyP Proofs.AllocSortP.
 Import ListNotations.
 Local Open Scope N_scope.
 
 Section Ref.
 Variables (a : st) (s : svc) (r : req).
 
-(* findBestPoolForService: first pool offering everything wanted; under
-   PreferDualStack the first pool with the primary family, then the first with
-   the secondary family, are remembered as fall-backs *)
-Fixpoint find_best (l : list pool) (pc sc : option pool) : option pool :=
-  match l with
-  | [] => match pc with Some p => Some p | None => sc end
-  | p :: rest =>
-      match classify a s r p with
-      | Full => Some p
-      | PrimaryOnly => find_best rest (match pc with None => Some p | _ => pc end) sc
-      | SecondaryOnly => find_best rest pc (match sc with None => Some p | _ => sc end)
-      | Nothing => find_best rest pc sc
-      end
-  end.
-
-Definition alloc_from (l : list pool) : option (poolid * list ip) :=
-  match find_best l None None with
-  | Some p => option_map (fun ips => (p_name p, ips)) (pool_offer a s r p)
-  | None => None
-  end.
-
-(* Allocate without an existing allocation: pinned pools (sorted), then the unpinned ones *)
-Definition allocate_ref (pinned_sorted unp : list pool) : option (poolid * list ip) :=
-  match alloc_from pinned_sorted with
-  | Some c => Some c
-  | None => alloc_from unp
-  end.
+Local Notation find_best := (find_best a s r).
+Local Notation alloc_from := (alloc_from a s r).
+Local Notation allocate_ref := (allocate_ref a s r).
 
 (* ---------- what find_best returns ---------- *)
 Definition rank_of (p : pool) : N := class_rank (classify a s r p).
